@@ -13,6 +13,7 @@ pub fn run(kind: &str, i: &Input) -> String {
         "vm_pex" => vm_pex(i),
         "vm_eval" => vm_eval(i),
         "check_multi" => check_multi(i),
+        "hash_solution_diff" => hash_solution_diff(i),
         "vm_compute" => vm_compute(i),
         "types_convert" => types_convert(i),
         "hash_addrs" => hash_addrs(i),
@@ -860,4 +861,34 @@ fn check_multi(i: &Input) -> String {
         Ok((gas, _)) => format!("result=ok\ngas={gas}\n"),
         Err(e) => format!("result=err\nerr={}\n", format!("{e:?}").replace('\n', " ").chars().take(600).collect::<String>()),
     }
+}
+
+/// native differential for the third-party (postcard) layer under the solution / solution-set addresses, which the solver does
+/// not see: structurally different solutions must have different pre-hash bytes and addresses, a set's address must not depend on
+/// the order of its solutions
+fn hash_solution_diff(_i: &Input) -> String {
+    use essential_types::solution::{Mutation, SolutionSet};
+    let pa = |c: u8, p: u8| PredicateAddress { contract: ContentAddress([c; 32]), predicate: ContentAddress([p; 32]) };
+    let datas: Vec<Vec<Vec<i64>>> = vec![vec![], vec![vec![]], vec![vec![0]], vec![vec![], vec![]], vec![vec![0, 0]], vec![vec![0], vec![0]], vec![vec![1]]];
+    let muts: Vec<Vec<Mutation>> = vec![vec![], vec![Mutation { key: vec![], value: vec![] }], vec![Mutation { key: vec![0], value: vec![] }],
+        vec![Mutation { key: vec![], value: vec![0] }], vec![Mutation { key: vec![0], value: vec![0] }],
+        vec![Mutation { key: vec![], value: vec![] }, Mutation { key: vec![], value: vec![] }], vec![Mutation { key: vec![0, 0], value: vec![] }]];
+    let mut sols = vec![];
+    for (c, p) in [(1u8, 1u8), (1, 2), (2, 1)] {
+        for d in &datas { for m in &muts {
+            if (c, p) != (1, 1) && (!d.is_empty() || !m.is_empty()) { continue; }
+            sols.push(Solution { predicate_to_solve: pa(c, p), predicate_data: d.clone(), state_mutations: m.clone() });
+        } }
+    }
+    let mut pre_distinct = true; let mut addr_distinct = true; let mut first = String::new();
+    for a in 0..sols.len() { for b in a + 1..sols.len() {
+        if essential_hash::serialize(&sols[a]) == essential_hash::serialize(&sols[b]) { pre_distinct = false; if first.is_empty() { first = format!("{:?} vs {:?}", sols[a], sols[b]); } }
+        if essential_hash::content_addr(&sols[a]) == essential_hash::content_addr(&sols[b]) { addr_distinct = false; }
+    } }
+    let s1 = SolutionSet { solutions: vec![sols[1].clone(), sols[9].clone(), sols[20].clone()] };
+    let s2 = SolutionSet { solutions: vec![sols[20].clone(), sols[1].clone(), sols[9].clone()] };
+    let s3 = SolutionSet { solutions: vec![sols[1].clone(), sols[9].clone(), sols[21].clone()] };
+    format!("solutions={}\npre_hash_bytes_distinct={pre_distinct}\naddresses_distinct={addr_distinct}\nset_order_independent={}\nset_sensitive_to_member={}\nfirst_collision={}\nresult=ok\n",
+        sols.len(), essential_hash::content_addr(&s1) == essential_hash::content_addr(&s2), essential_hash::content_addr(&s1) != essential_hash::content_addr(&s3),
+        first.replace('\n', " ").chars().take(300).collect::<String>())
 }
